@@ -426,6 +426,27 @@ func (c *vfCase) run(t []string, op string, o *vu.Out) (string, string) {
 		}
 		c.sc.maxFrameSize = int32(a[0])
 		return op, "ok"
+	case "pparse":
+		// Go-side oracle only: parseRFC9218Priority must always produce urgency <= 7, incremental <= 1
+		// (the index-safety precondition of the scheduler's heads[u][i]) and the default on failure.
+		if len(t) != 3 || (t[2] != "0" && t[2] != "1") {
+			return op, "bad-op"
+		}
+		b, okHex := vu.ParseHex(t[1])
+		if !okHex {
+			return op, "bad-op"
+		}
+		return op, vu.Catch(func() string {
+			p, ok := parseRFC9218Priority(string(b), t[2] == "1")
+			if p.urgency > 7 || p.incremental > 1 {
+				o.Fail("", fmt.Sprintf("parseRFC9218Priority(%q) = urgency %d incremental %d (out of range)", b, p.urgency, p.incremental))
+			}
+			if !ok && p != defaultRFC9218Priority(t[2] == "1") {
+				o.Fail("", fmt.Sprintf("parseRFC9218Priority(%q) failed but did not return the default priority", b))
+			}
+			o.Stat(fmt.Sprintf("pparse:ok=%v", ok))
+			return "ok"
+		})
 	case "dump":
 		if len(t) != 1 {
 			return op, "bad-op"
@@ -612,7 +633,12 @@ func (c *vfCase) postOp(o *vu.Out) {
 	if c.region != "" {
 		return
 	}
+	var openIDs []uint32
 	for id := range c.refOpen {
+		openIDs = append(openIDs, id)
+	}
+	sort.Slice(openIDs, func(i, j int) bool { return openIDs[i] < openIDs[j] })
+	for _, id := range openIDs {
 		if c.idleMade[id] && ws.nodes[id] == nil {
 			c.region = vfSigIdleEvict
 			o.Stat("region:" + vfSigIdleEvict)
